@@ -151,7 +151,10 @@ def main(argv=None):
         hs += [h for h in P.get('kani_thorough', []) if h not in hs]
     kres = None
     if hs and not a.no_kani:
-        kres = krun.run(hs, repo=a.repo, jobs=int(os.environ.get('VERIF_JOBS', '12')), playback=True)
+        # the quick tier's harnesses take 1-4 minutes on the unchanged tree; a changed tree on which CBMC does not come back within the limit is
+        # undecided for Kani (never a pass), and the check stays usable on every change
+        kres = krun.run(hs, repo=a.repo, jobs=int(os.environ.get('VERIF_JOBS', '12')), playback=True,
+                        timeout=int(os.environ.get('VERIF_KANI_TIMEOUT', '900' if a.tier == 'quick' else '5400')))
         by_backend['kani/cbmc'] = dict(seconds=kres['time_s'], harnesses=kres['results'], cmd=kres['cmd'])
         if kres['status'] != 'ok':
             undecided.append('kani: %s' % kres['reason'])
